@@ -543,13 +543,15 @@ def run_watched(fn, timeout):
     return (not th.is_alive()), box.get("exc")
 
 
-def make_policy(name, srv, holder):
-    """the named missing-host-key policy, observing what the server has received at the moment it is consulted"""
+def make_policy(name, ctx):
+    """the named missing-host-key policy, observing what the server has received at the moment it is consulted.
+    ctx["srv"] / ctx["holder"] are those of the connection in progress (one policy object serves a whole SSHClient)"""
     base = {"Reject": paramiko.RejectPolicy, "AutoAdd": paramiko.AutoAddPolicy, "Warning": paramiko.WarningPolicy,
             "CustomAccept": paramiko.MissingHostKeyPolicy, "CustomReject": paramiko.MissingHostKeyPolicy}[name]
 
     class Observing(base):
         def missing_host_key(self, client, hostname, key):
+            srv, holder = ctx["srv"], ctx["holder"]
             holder["asked"] = True
             holder["name"] = hostname
             srv.drained(client._transport)
@@ -567,45 +569,20 @@ def gate_obs():
             "secretatpolicy": False, "plain": False, "plainauth": False, "exc": ""}
 
 
-def run_gate(cfg, workdir, rnd, cred="password", universe=None, badsig=False):
-    """one Transport.connect(hostkey=..) / SSHClient.connect(sock=..) attempt for the model configuration cfg;
-    badsig: the host-key signature is corrupted in transit"""
-    universe = universe or [(t, i) for t in ("ed", "rsa", "ecdsa") for i in (1, 2)]
+def _one_connection(api, call, server_keys, ctx, universe, badsig, what):
+    """one connection attempt against a fresh link + server; call(link) -> the client transport (may be None)"""
     link = ns.Link(filt=corrupt_kex_reply if badsig else None)
-    srv = ServerEnd(link, [(k["t"], k["id"]) for k in cfg["server"]])
+    srv = ServerEnd(link, server_keys)
     obs = gate_obs()
     holder = {}
-    kw = {"username": "u"}
-    gss = cfg.get("gss", "none")
-    if gss != "none":
-        kw.update(gss_kex=gss in ("kex", "both"), gss_auth=gss in ("auth", "both"), gss_deleg_creds=rnd.random() < 0.5,
-                  gss_trust_dns=False)
-    if cred == "password":
-        kw["password"] = SECRET
-    else:
-        kw["pkey"] = user_key()
+    ctx["srv"], ctx["holder"] = srv, holder
+    box = {}
     tc = None
-    client = None
     try:
-        if cfg["api"] == "connect":
-            tc = tapped_transport(link.a)
-            expect = None if cfg["expect"]["t"] == "none" else hostkey(cfg["expect"]["t"], cfg["expect"]["id"])
-            done, exc = run_watched(lambda: tc.connect(hostkey=expect, **kw), 60.0)
-        else:
-            client = paramiko.SSHClient()
-            os.makedirs(workdir, exist_ok=True)
-            sysf, usrf = os.path.join(workdir, "sys_known_hosts"), os.path.join(workdir, "usr_known_hosts")
-            render_known_hosts(cfg["sys"], sysf, rnd)
-            render_known_hosts(cfg["usr"], usrf, rnd)
-            client.load_system_host_keys(sysf)
-            client.load_host_keys(usrf)
-            client.set_missing_host_key_policy(make_policy(cfg["policy"], srv, holder))
-            port = 22 if cfg["port"] == "default" else PORT
-            done, exc = run_watched(lambda: client.connect(HOST, port=port, sock=link.a, allow_agent=False, look_for_keys=False,
-                                                           transport_factory=tapped_transport, **kw), 60.0)
-            tc = client._transport
+        done, exc = run_watched(lambda: box.setdefault("tc", call(link, box)), 60.0)
+        tc = box.get("tc") or box.get("early_tc")
         if not done:
-            raise DriverError("connect did not return within 60 s for %r" % (cfg,))
+            raise DriverError("connect did not return within 60 s for %r" % (what,))
         obs["raised"] = exc is not None
         obs["exc"] = "" if exc is None else ("%s: %s" % (type(exc).__name__, exc))[:160]
         if exc is not None and not isinstance(exc, (paramiko.SSHException, EOFError, ImportError)):
@@ -622,7 +599,7 @@ def run_gate(cfg, workdir, rnd, cred="password", universe=None, badsig=False):
         obs["atpolicy"] = holder.get("atpolicy", 0)
         obs["secretatpolicy"] = bool(holder.get("secretatpolicy", False))
     finally:
-        for x in (client, tc, srv.ts):
+        for x in (tc, srv.ts):
             try:
                 if x is not None:
                     x.close()
@@ -630,6 +607,65 @@ def run_gate(cfg, workdir, rnd, cred="password", universe=None, badsig=False):
                 pass
         link.a.close()
         link.b.close()
+    return obs
+
+
+def run_gate(cfg, workdir, rnd, cred="password", universe=None, badsig=False, earlier=None):
+    """the connection attempt(s) of the model configuration cfg: Transport.connect(hostkey=..) or SSHClient.connect(sock=..).
+    cfg["prev"] lists earlier connections made through the SAME SSHClient object (tables loaded once, one policy object);
+    their observations are appended to `earlier`, the observation of the last connection is returned.
+    badsig: the host-key signature is corrupted in transit"""
+    universe = universe or [(t, i) for t in ("ed", "rsa", "ecdsa") for i in (1, 2)]
+    kw = {"username": "u"}
+    gss = cfg.get("gss", "none")
+    if gss != "none":
+        kw.update(gss_kex=gss in ("kex", "both"), gss_auth=gss in ("auth", "both"), gss_deleg_creds=rnd.random() < 0.5,
+                  gss_trust_dns=False)
+    if cred == "password":
+        kw["password"] = SECRET
+    else:
+        kw["pkey"] = user_key()
+    ctx = {}
+    if cfg["api"] == "connect":
+        expect = None if cfg["expect"]["t"] == "none" else hostkey(cfg["expect"]["t"], cfg["expect"]["id"])
+
+        def call(link, box):
+            tc = box["early_tc"] = tapped_transport(link.a)
+            tc.connect(hostkey=expect, **kw)
+            return tc
+        return _one_connection("connect", call, [(k["t"], k["id"]) for k in cfg["server"]], ctx, universe, badsig, cfg)
+    client = paramiko.SSHClient()
+    os.makedirs(workdir, exist_ok=True)
+    sysf, usrf = os.path.join(workdir, "sys_known_hosts"), os.path.join(workdir, "usr_known_hosts")
+    render_known_hosts(cfg["sys"], sysf, rnd)
+    render_known_hosts(cfg["usr"], usrf, rnd)
+    client.load_system_host_keys(sysf)
+    client.load_host_keys(usrf)
+    client.set_missing_host_key_policy(make_policy(cfg["policy"], ctx))
+    obs = None
+    try:
+        steps = [(p["port"], p["server"]) for p in cfg.get("prev", [])] + [(cfg["port"], cfg["server"])]
+        for n, (target, server) in enumerate(steps):
+            host = OTHER if target == "otherhost" else HOST
+            port = PORT if target == "other" else 22
+
+            def call(link, box, host=host, port=port):
+                try:
+                    client.connect(host, port=port, sock=link.a, allow_agent=False, look_for_keys=False,
+                                   transport_factory=tapped_transport, **kw)
+                finally:
+                    box["early_tc"] = client._transport
+                return client._transport
+            obs = _one_connection("sshclient", call, [(k["t"], k["id"]) for k in server], ctx, universe,
+                                  badsig and n == len(steps) - 1, cfg)
+            client.close()          # ends the transport; the SSHClient object and its host-key tables live on
+            if n < len(steps) - 1 and earlier is not None:
+                earlier.append(obs)
+    finally:
+        try:
+            client.close()
+        except Exception:
+            pass
     return obs
 
 
